@@ -137,6 +137,18 @@ impl<T: fmt::Display> fmt::Display for Override<T> {
 /// Parses a `Meta`. A bare word will produce `Override::Inherit`, while
 /// any value will be forwarded to `T::from_meta`.
 impl<T: FromMeta> FromMeta for Override<T> {
+    fn from_meta(item: &syn::Meta) -> Result<Self> {
+        match item {
+            syn::Meta::Path(_) => Self::from_word().map_err(|e| e.with_span(item)),
+            // Hand the whole item to `T`, so that types which hook `from_meta` or
+            // `from_expr` (e.g. `Option`, `SpannedValue`, `syn::Expr`) see what they
+            // would have seen without the `Override`.
+            _ => T::from_meta(item)
+                .map(Explicit)
+                .map_err(|e| e.with_span(item)),
+        }
+    }
+
     fn from_word() -> Result<Self> {
         Ok(Inherit)
     }
